@@ -1,5 +1,179 @@
 import Dagrt.Model.PrintParse
+import Dagrt.Proofs.FuseProofs
+/-!
+# C19 — printing an expression and parsing it back returns the same expression
+
+Model: `Dagrt.PrintParse` (`Model/PrintParse.lean`) = the dagrt-owned parts of
+`dagrt.expression.parse`: the lexer table (first matching rule wins) with the identifier rule
+extended by backtick-delimited identifiers, `_ExtendedParser.parse_terminal` for `<tag>name`, and
+the backtick-removal pass.  pymbolic's precedence-climbing parser and its printer are third party
+and NOT modelled: the round trip of whole expressions is decided on every run by the oracle on the
+real code (prints identically, same variables, same value, constants keep their type).
+
+Proved here, for ALL names / token lists / expressions:
+* terminals at token level: `<`, tag, `>`, name is read as the one variable `<tag>name`; a tag-only
+  identifier is read as `<tag>` when no identifier token follows; a plain identifier is itself;
+* **backtick-quoted names denote the variable between the backticks**: for every run `q` of
+  characters the quoting rule admits, the string `` `q` `` lexes to a single identifier token and
+  parses to the variable `q` (lexer + terminal rule + removal pass composed);
+* the removal pass renames exactly by `unquote`: it is the substitution `x ↦ unquote x` on every
+  variable occurrence (function symbols, subscript aggregates and look-ups included), so the
+  variables of the result are the unquoted variables of the input, and names without backticks are
+  untouched.
+-/
 namespace Dagrt.C19
 open Dagrt Dagrt.PrintParse
-theorem placeholder : dropWs [] = [] := rfl
+
+/-- `<tag>name`: four tokens, one variable -/
+theorem terminal_tagged (tag name : String) (rest : List Tok) :
+    parseTerminal (.op "<" :: .ident tag :: .op ">" :: .ident name :: rest) =
+      .ok ("<" ++ tag ++ ">" ++ name, rest) := by
+  simp [parseTerminal]
+
+/-- `<tag>` alone: the variable `<tag>`, provided no identifier token follows (then the two would
+    be glued together — the printer never puts two terminals next to each other) -/
+theorem terminal_tag_only (tag : String) (rest : List Tok) (h : ∀ n r, rest ≠ .ident n :: r) :
+    parseTerminal (.op "<" :: .ident tag :: .op ">" :: rest) = .ok ("<" ++ tag ++ ">", rest) := by
+  unfold parseTerminal
+  cases rest with
+  | nil => rfl
+  | cons t r =>
+    cases t with
+    | ident n => exact absurd rfl (h n r)
+    | _ => rfl
+
+theorem terminal_plain (name : String) (rest : List Tok) :
+    parseTerminal (.ident name :: rest) = .ok (name, rest) := by
+  simp [parseTerminal]
+
+/-- a tag that is not followed by `>` is a parse error, not a wrong variable -/
+theorem terminal_unclosed_tag (tag : String) (rest : List Tok) (h : ∀ r, rest ≠ .op ">" :: r) :
+    parseTerminal (.op "<" :: .ident tag :: rest) = .error (.expected ">") := by
+  cases rest with
+  | nil => simp [parseTerminal]
+  | cons t r =>
+    cases t with
+    | op s =>
+      have hs : s ≠ ">" := by intro e; subst e; exact h r rfl
+      simp [parseTerminal, hs]
+    | _ => simp [parseTerminal]
+
+/-! ### quoting -/
+
+theorem spanP_all (p : Char → Bool) : ∀ (a rest : List Char), (∀ c ∈ a, p c = true) →
+    (∀ c r, rest = c :: r → p c = false) → spanP p (a ++ rest) = (a, rest)
+  | [], rest, _, hr => by
+    cases rest with
+    | nil => rfl
+    | cons c r => simp [spanP, hr c r rfl]
+  | c :: a, rest, ha, hr => by
+    have := spanP_all p a rest (fun x hx => ha x (List.mem_cons_of_mem _ hx)) hr
+    simp [spanP, ha c List.mem_cons_self, this]
+
+theorem unquote_quoted (q : List Char) : unquote (String.ofList ('`' :: q ++ ['`'])) = String.ofList q := by
+  unfold unquote
+  simp
+
+theorem unquote_plain (n : Name) (h : ∀ r, n.toList ≠ '`' :: r) : unquote n = n := by
+  unfold unquote
+  split
+  · rename_i r heq; exact absurd heq (h r)
+  · rfl
+
+/-- the lexer reads `` `q` `` (q: characters the quoting rule admits) as ONE identifier token -/
+theorem lexOne_quoted (q rest : List Char) (hq : ∀ c ∈ q, isQuotedChar c = true) :
+    lexOne ('`' :: q ++ '`' :: rest) = some (.ident (String.ofList ('`' :: q ++ ['`'])), rest) := by
+  have hsp : spanP isQuotedChar (q ++ '`' :: rest) = (q, '`' :: rest) :=
+    spanP_all isQuotedChar q ('`' :: rest) hq (by intro c r h; simp at h; rw [← h.1]; decide)
+  have hid : lexIdent ('`' :: q ++ '`' :: rest) = some ('`' :: q ++ ['`'], rest) := by
+    simp [lexIdent, isIdentStart, isLetter, hsp]
+  unfold lexOne
+  have h1 : firstPrefix fixedOps ('`' :: q ++ '`' :: rest) = none := by
+    simp [fixedOps, firstPrefix, startsWith]
+  have h2 : firstKeyword keywords ('`' :: q ++ '`' :: rest) = none := by
+    simp [keywords, firstKeyword, startsWith]
+  have h3 : lexNumber ('`' :: q ++ '`' :: rest) = none := by
+    simp [lexNumber, spanP, isDigit]
+  have h4 : firstPrefix lateOps ('`' :: q ++ '`' :: rest) = none := by
+    simp [lateOps, firstPrefix, startsWith]
+  have h5 : firstPrefix ["True", "False"] ('`' :: q ++ '`' :: rest) = none := by
+    simp [firstPrefix, startsWith]
+  simp only [h1, h2, h3, h4, h5, hid]
+
+/-- **Backtick-quoted names denote the variable between the backticks** -/
+theorem quoted_name_denotes (q : List Char) (hq : ∀ c ∈ q, isQuotedChar c = true) :
+    parseName (String.ofList ('`' :: q ++ ['`'])) = .ok (String.ofList q) := by
+  unfold parseName lex
+  have hl := lexOne_quoted q [] hq
+  have htl : (String.ofList ('`' :: q ++ ['`'])).toList = '`' :: q ++ '`' :: [] := by simp
+  rw [htl]
+  have hf : ∀ n, lexFuel (n + 1) ('`' :: q ++ '`' :: []) = some [.ident (String.ofList ('`' :: q ++ ['`']))] := by
+    intro n
+    have : lexFuel (n + 1) ('`' :: (q ++ '`' :: [])) = some [.ident (String.ofList ('`' :: q ++ ['`']))] := by
+      rw [lexFuel]
+      · have hl' : lexOne ('`' :: (q ++ '`' :: [])) = some (.ident (String.ofList ('`' :: q ++ ['`'])), []) := hl
+        rw [hl']
+        cases n <;> simp [lexFuel]
+      · intro h; cases h
+    exact this
+  have hlen : ∃ n, (String.ofList ('`' :: q ++ ['`'])).length + 1 = n + 1 := ⟨_, rfl⟩
+  obtain ⟨n, hn⟩ := hlen
+  rw [hn, hf]
+  simp only [dropWs, List.filter, parseTerminal]
+  rw [unquote_quoted]
+
+/-- the opening `<` of a tag is its own token whenever the tag does not start with `<` or `=`
+    (no `<<`, `<=`) … -/
+theorem lexOne_less (c : Char) (rest : List Char) (h1 : c ≠ '<') (h2 : c ≠ '=') :
+    lexOne ('<' :: c :: rest) = some (.op "<", c :: rest) := by
+  simp [lexOne, fixedOps, firstPrefix, startsWith, Ne.symm h1, Ne.symm h2]
+
+/-- … and the closing `>` whenever what follows does not start with `>` or `=` -/
+theorem lexOne_greater (rest : List Char) (h : ∀ c r, rest = c :: r → c ≠ '>' ∧ c ≠ '=') :
+    lexOne ('>' :: rest) = some (.op ">", rest) := by
+  cases rest with
+  | nil => simp [lexOne, fixedOps, firstPrefix, startsWith]
+  | cons c r =>
+    obtain ⟨h1, h2⟩ := h c r rfl
+    simp [lexOne, fixedOps, firstPrefix, startsWith, Ne.symm h1, Ne.symm h2]
+
+/-! ### the removal pass is the renaming by `unquote` -/
+
+mutual
+theorem remove_is_rename : ∀ e : Expr, removeBackticks e = Fuse.renameExpr unquote e
+  | .const _ => by simp [removeBackticks, Fuse.renameExpr]
+  | .var _ => by simp [removeBackticks, Fuse.renameExpr]
+  | .sum cs => by simp [removeBackticks, Fuse.renameExpr, removeL_is_rename cs]
+  | .prod cs => by simp [removeBackticks, Fuse.renameExpr, removeL_is_rename cs]
+  | .quot a b => by simp [removeBackticks, Fuse.renameExpr, remove_is_rename a, remove_is_rename b]
+  | .pow a b => by simp [removeBackticks, Fuse.renameExpr, remove_is_rename a, remove_is_rename b]
+  | .call f args kw => by simp [removeBackticks, Fuse.renameExpr, removeL_is_rename args, removeK_is_rename kw]
+  | .sub a b => by simp [removeBackticks, Fuse.renameExpr, remove_is_rename a, remove_is_rename b]
+  | .attr a _ => by simp [removeBackticks, Fuse.renameExpr, remove_is_rename a]
+  | .cmp _ a b => by simp [removeBackticks, Fuse.renameExpr, remove_is_rename a, remove_is_rename b]
+  | .lnot a => by simp [removeBackticks, Fuse.renameExpr, remove_is_rename a]
+  | .land cs => by simp [removeBackticks, Fuse.renameExpr, removeL_is_rename cs]
+  | .lor cs => by simp [removeBackticks, Fuse.renameExpr, removeL_is_rename cs]
+  | .ite c t e => by simp [removeBackticks, Fuse.renameExpr, remove_is_rename c, remove_is_rename t, remove_is_rename e]
+  | .min cs => by simp [removeBackticks, Fuse.renameExpr, removeL_is_rename cs]
+  | .max cs => by simp [removeBackticks, Fuse.renameExpr, removeL_is_rename cs]
+theorem removeL_is_rename : ∀ cs : List Expr, removeL cs = Fuse.renameL unquote cs
+  | [] => rfl
+  | c :: cs => by simp [removeL, Fuse.renameL, remove_is_rename c, removeL_is_rename cs]
+theorem removeK_is_rename : ∀ cs : List (Name × Expr), removeK cs = Fuse.renameK unquote cs
+  | [] => rfl
+  | (k, c) :: cs => by simp [removeK, Fuse.renameK, remove_is_rename c, removeK_is_rename cs]
+end
+
+/-- the variables of the result are the unquoted variables of the input, occurrence by occurrence -/
+theorem remove_vars (e : Expr) : Sem.depVars (removeBackticks e) = (Sem.depVars e).map unquote := by
+  rw [remove_is_rename]; exact Fuse.depVars_rename unquote e
+
+/-- non-vacuity: `` `<state>y`[`i`] + `a:b` `` -/
+example : (removeBackticks (.sum [.sub (.var "`<state>y`") (.var "`i`"), .var "`a:b`"])).beq
+    (.sum [.sub (.var "<state>y") (.var "i"), .var "a:b"]) = true := by decide +kernel
+example : parseName "`<state>y`" = .ok "<state>y" := by decide +kernel
+example : parseName "<state>y" = .ok "<state>y" := by decide +kernel
+example : parseName "<dt>" = .ok "<dt>" := by decide +kernel
+
 end Dagrt.C19
